@@ -30,7 +30,20 @@ RULE = ("Scripts: one script per push length 0..521 (all three length classes an
         "whole transaction) and before trailing bytes, and check fields and the final stream position; several "
         "transactions back to back; compact sizes on both sides of every width boundary up to 2^64-1 (9-byte "
         "width), out-of-range values, every first byte 0..255 with complete (also non-minimal) payloads; "
-        "parse_hex, clone (independence of the copy), constructor defaults.")
+        "parse_hex, clone (independence of the copy), constructor defaults.  Stream model (correspondence): Tx.parse "
+        "at every position 0..8, 37, 100 of a buffer holding a canonical / truncated / corrupted transaction, every "
+        "combination of 0..8 bytes before and 0..6 bytes left (the step back of seek(-5, 1) reaches into the prefix), "
+        "positions beyond the end of the buffer, 0..5 transactions back to back and one parse more than there are "
+        "transactions.  Other entry points against the model: Tx.parse_hex on lower/upper-case hex, white space between "
+        "pairs / inside a pair, odd length, trailing garbage, non-ASCII; Tx.clone; Script.parse_hex, Script + Script, "
+        "Script == (operands with and without .raw, int commands 1..78 and out of range), Script.parse(stream, raw) "
+        "with each argument present / absent / empty; Tx(...)/TxIn(...) constructor defaults.  Canonical script "
+        "bytes: the predicate script_canon compares parse + raw_serialize with an independent recogniser of the "
+        "canonical grammar on serialisations, single-byte mutations, truncations, random bytes, every push form "
+        "(direct, PUSHDATA1/2/4) at lengths 0/1/74..77/254..257/519..521/600.  Fetcher with its network argument: "
+        "call histories (fresh / cached) over mainnet, testnet, signet and unserved names ('regtest', '', 'Mainnet') "
+        "with honest / other / garbage responses, URL requested or not, network label of what is returned; a cached "
+        "id requested under another network name.")
 TRUSTED = ["hashlib (sha256) — hash256 is a universally quantified function in the theorems",
            "modelled, not verified: object plumbing (Script/TxIn/TxOut/Tx/Witness constructors, Sequence/Locktime "
            "int subclasses are modelled as a range check at construction), urllib Request construction"]
@@ -270,6 +283,102 @@ IMPL = {
     "fromhex": i_fromhex,
     "hexlify": lambda b: b.hex(),
 }
+
+
+def _try(f):
+    try:
+        return f()
+    except Exception:
+        return ERR
+
+
+def i_tx_parse_st(data, pos):
+    """Tx.parse on a BytesIO holding `data`, positioned at `pos` (possibly beyond the end): fields, the bytes left
+    in the stream and the final position"""
+    st = BytesIO(data)
+    st.seek(pos)
+    t = Tx.parse(st)
+    p = st.tell()
+    return [un_tx(t), st.read(), p]
+
+
+def i_tx_parse_seq(k, data, pos):
+    st = BytesIO(data)
+    st.seek(pos)
+    ts = [un_tx(Tx.parse(st)) for _ in range(k)]
+    p = st.tell()
+    return [ts, st.read(), p]
+
+
+def i_script_add(a, b):
+    s = mk_script(a) + mk_script(b)
+    return [un_script(s), _try(s.raw_serialize), _try(s.serialize)]
+
+
+def i_fetch_net_run(ops):
+    TxFetcher.cache.clear()
+    out = []
+    try:
+        for fresh, resp, idb, net in ops:
+            with fake_net([resp]) as fn:
+                try:
+                    t = TxFetcher.fetch(idb.decode("latin-1"), network=net.decode("latin-1"), fresh=bool(fresh))
+                    res = [un_tx(t), t.network.encode("latin-1")]
+                except Exception:
+                    res = ERR
+            out.append([res, [u.encode("latin-1") for u in fn.urls]])
+    finally:
+        TxFetcher.cache.clear()
+    return [len(ops)] + out
+
+
+def i_script_parse_args(st, rw):
+    """Script.parse(stream, raw) with each argument present or None; the stream is positioned in the middle of a
+    buffer; returns the script and what is left in the stream"""
+    stream = mid(st[0]) if len(st) else None
+    raw = rw[0] if len(rw) else None
+    sc = Script.parse(stream, raw)
+    return [un_script(sc), [] if stream is None else [stream.read()]]
+
+
+def i_tx_defaults(ver, pts, outs):
+    t = Tx(ver, [TxIn(pt, pi) for pt, pi in pts], [mk_txout(o) for o in outs])
+    return [un_tx(t), _try(t.serialize)]
+
+
+def i_txin_prevout(v, net, resp):
+    """TxIn.value(network) and TxIn.script_pubkey(network) of a fresh input on an empty cache: the amount and the
+    script, and the URLs requested (value() fetches, script_pubkey() must then be served from the cache)"""
+    TxFetcher.cache.clear()
+    try:
+        try:
+            i = mk_txin(v)
+        except Exception:
+            return [ERR, []]
+        network = net.decode("latin-1")
+        with fake_net([resp, resp]) as fn:
+            try:
+                res = [i.value(network), un_script(i.script_pubkey(network))]
+            except Exception:
+                res = ERR
+        return [res, [u.encode("latin-1") for u in fn.urls]]
+    finally:
+        TxFetcher.cache.clear()
+
+
+IMPL.update({
+    "txin_prevout": i_txin_prevout,
+    "script_parse_args": i_script_parse_args,
+    "tx_defaults": i_tx_defaults,
+    "tx_parse_st": i_tx_parse_st,
+    "tx_parse_seq": i_tx_parse_seq,
+    "tx_parse_hex": lambda txt: un_tx(Tx.parse_hex(txt.decode("latin-1"))),
+    "tx_clone": lambda v: un_tx(mk_tx(v).clone()),
+    "script_parse_hex": lambda txt: un_script(Script.parse_hex(txt.decode("latin-1"))),
+    "script_add": i_script_add,
+    "script_eq": lambda a, b: mk_script(a) == mk_script(b),
+    "fetch_net_run": i_fetch_net_run,
+})
 IMPL = {k: quiet(f) for k, f in IMPL.items()}
 
 # ---------------------------------------------------------------- independent reference encoder
@@ -845,7 +954,89 @@ def p_fetch_network(resp, idb, net, must_accept):
         TxFetcher.cache.clear()
 
 
-PROPS = {"script_rt": p_script_rt, "raw_fallback": p_raw_fallback, "witness_rt": p_witness_rt, "tx_rt": p_tx_rt, "zero_inputs": p_zero_inputs,
+def ref_is_canon_script(raw):
+    """independent recogniser of Spec/ScriptCanon.canon_script_bytes: opcodes 0x00 / 0x4f..0xff, direct pushes of
+    1..75 bytes, OP_PUSHDATA1 for 76..255, OP_PUSHDATA2 for 256..520, every push complete"""
+    i, n = 0, len(raw)
+    while i < n:
+        b = raw[i]
+        if b == 0 or b >= 79:
+            i += 1
+            continue
+        if 1 <= b <= 75:
+            ln, hdr = b, 1
+        elif b == 76:
+            if i + 2 > n:
+                return False
+            ln, hdr = raw[i + 1], 2
+            if not 76 <= ln <= 255:
+                return False
+        elif b == 77:
+            if i + 3 > n:
+                return False
+            ln, hdr = raw[i + 1] | (raw[i + 2] << 8), 3
+            if not 256 <= ln <= 520:
+                return False
+        else:
+            return False
+        if i + hdr + ln > n:
+            return False
+        i += hdr + ln
+    return True
+
+
+def p_script_canon(raw):
+    """the converse of the script round trip, for ANY byte string: Script.parse(raw=b).raw_serialize() == b exactly
+    when b is a canonical encoding (independent recogniser) or the parser fell back to .raw (Coq:
+    C04_script_reserialize_iff)"""
+    with contextlib.redirect_stdout(io.StringIO()):
+        try:
+            sc = Script.parse(raw=raw)
+        except Exception:
+            return "canonical script bytes were rejected by Script.parse" if ref_is_canon_script(raw) else None
+        try:
+            same = sc.raw_serialize() == raw
+        except Exception:
+            same = False
+    canon = ref_is_canon_script(raw)
+    if canon and sc.raw is not None:
+        return "Script.parse fell back to .raw on a canonical encoding"
+    if same != (canon or sc.raw is not None):
+        return ("canonical script bytes are not reproduced by parse + raw_serialize" if canon else
+                "non-canonical script bytes (exactly parsed) are reproduced by parse + raw_serialize")
+    return None
+
+
+def p_fetch_cross_network(resp, idb, net1, net2):
+    """the cache is keyed by the id only: after a fetch on net1, a non-fresh fetch of the same id under any other
+    network name is served from the cache without a request — what it returns still hashes to the id"""
+    tx_id = idb.decode("latin-1")
+    TxFetcher.cache.clear()
+    try:
+        with contextlib.redirect_stdout(io.StringIO()):
+            with fake_net([resp]):
+                try:
+                    t = TxFetcher.fetch(tx_id, network=net1.decode("latin-1"), fresh=True)
+                except Exception:
+                    return None
+            with fake_net([b"00"]) as fn:
+                try:
+                    t2 = TxFetcher.fetch(tx_id, network=net2.decode("latin-1"))
+                except Exception as e:
+                    return f"cached id not served on another network name: {type(e).__name__}"
+            real = hashlib.sha256(hashlib.sha256(t2.serialize_legacy()).digest()).digest()[::-1].hex()
+        if real != tx_id or t2.id() != tx_id:
+            return "a transaction served from the cache for another network does not hash to the requested id"
+        if fn.urls:
+            return "a cached id caused a request"
+        if t2 is not t or t2.network != net2.decode("latin-1"):
+            return "cache hit is not the cached object relabelled with the requested network"
+        return None
+    finally:
+        TxFetcher.cache.clear()
+
+
+PROPS = {"script_canon": p_script_canon, "fetch_cross_network": p_fetch_cross_network, "script_rt": p_script_rt, "raw_fallback": p_raw_fallback, "witness_rt": p_witness_rt, "tx_rt": p_tx_rt, "zero_inputs": p_zero_inputs,
          "bytes_rt": p_bytes_rt, "txid": p_txid, "txid_inplace": p_txid_inplace, "fetch": p_fetch,
          "mid_stream": p_mid_stream, "tx_sequence": p_tx_sequence, "varint": p_varint, "varint_decode": p_varint_decode,
          "varstr": p_varstr, "api_forms": p_api_forms, "script_api": p_script_api, "fetch_network": p_fetch_network}
@@ -1510,3 +1701,128 @@ def generate(ctx):
             if ref_txid(w) != ref_txid(v):
                 yield ("prop", "fetch_network", [hexresp(ref_full(w)), tid, net, 0])
         yield ("prop", "fetch_network", [hexresp(raw), tid, r.choice([b"regtest", b"", b"Mainnet", b"mainnet ", b"testnet4"]), 0])
+    # ------------------------------------------------------------ model-vs-implementation on the stream model
+    # Tx.parse at an arbitrary position of an arbitrary buffer (Model/TxStream.v has the seek(-5, 1) with clamping)
+    for k in range(ctx.n(400, 6000)):
+        v = mids[k % len(mids)] if k % 4 else base[k % len(base)]
+        raw = ref_full(v)
+        pre = ctx.rbytes(r.choice([0, 1, 2, 3, 4, 5, 6, 7, 8, 37, 100]))
+        post = posts()
+        ctx.label("stream-model/tx@" + ("0" if not pre else "1..4" if len(pre) < 5 else ">=5"))
+        yield ("corr", "tx_parse_st", [pre + raw + post, len(pre)])
+        if k % 5 == 0:   # truncated / corrupted object behind a prefix
+            yield ("corr", "tx_parse_st", [pre + raw[: r.randrange(0, len(raw))], len(pre)])
+            b = bytearray(raw)
+            b[r.randrange(min(len(b), 12))] ^= r.choice([1, 0x80, 0xff])
+            yield ("corr", "tx_parse_st", [pre + bytes(b) + post, len(pre)])
+    # fewer than five bytes left (the step back reaches into the prefix), all small sizes; positions beyond the end
+    for npre in range(0, 9):
+        for left in range(0, 7):
+            for fill in (0, 1):
+                data = ctx.rbytes(npre + left) if fill else bytes([1, 0, 0, 0, 0, 1, 0, 0, 0, 0, 0, 0, 0, 0, 0, 0])[: npre + left]
+                ctx.label("stream-model/short")
+                yield ("corr", "tx_parse_st", [data, npre])
+        for beyond in (1, 2, 5, 6, 20):
+            ctx.label("stream-model/position-beyond-end")
+            yield ("corr", "tx_parse_st", [ctx.rbytes(npre), npre + beyond])
+    tiny = ref_full([1, [], [], 0, 1])
+    for pos in range(0, 2 * len(tiny) + 3):
+        yield ("corr", "tx_parse_st", [tiny + tiny, pos])
+    for k in range(ctx.n(60, 800)):
+        seq = [mids[(k * 3 + 7 * j) % len(mids)] for j in range(r.randrange(0, 5))]
+        pre = ctx.rbytes(r.choice([0, 1, 4, 5, 9]))
+        data = pre + b"".join(ref_full(v) for v in seq) + posts()
+        ctx.label("stream-model/tx-sequence")
+        yield ("corr", "tx_parse_seq", [len(seq), data, len(pre)])
+        yield ("corr", "tx_parse_seq", [len(seq) + 1, data, len(pre)])
+    # parse_hex / clone
+    for k in range(ctx.n(200, 3000)):
+        v = mids[(k * 5 + 2) % len(mids)] if k % 3 else r_tx(ctx, r, r.choice([0, 1, 2]))
+        ctx.label("api-model/clone")
+        yield ("corr", "tx_clone", [v])
+        if serializable(v):
+            hx = ref_full(v).hex().encode()
+            forms = [hx, hx.upper(), hx + b"\n", b" " + hx, b" ".join(hx[i:i + 2] for i in range(0, len(hx), 2)), hx[:-1],
+                     hx + b"zz", hx + b"00", hx[:8], b"", hx[:9] + b" " + hx[9:], hx + b"\xc2\xa0"]
+            ctx.label("api-model/parse_hex")
+            yield ("corr", "tx_parse_hex", [hx])
+            yield ("corr", "tx_parse_hex", [r.choice(forms)])
+    # Script.parse_hex / + / ==, and the converse of the script round trip on arbitrary bytes
+    for k in range(ctx.n(300, 4000)):
+        a, b = r_cmds(ctx, r, big=(k % 7 == 0)), r_spk_cmds(ctx, r)
+        if k % 11 == 0:
+            a = a + [r.choice([300, -1, 77, 1])]
+        sa = [a, [ctx.rbytes(r.randrange(0, 6))] if k % 9 == 0 else []]
+        sb = [b, [ctx.rbytes(3)] if k % 13 == 0 else []]
+        ctx.label("api-model/script-add-eq")
+        yield ("corr", "script_add", [sa, sb])
+        yield ("corr", "script_eq", [sa, sb])
+        yield ("corr", "script_eq", [sa, [list(a), []]])
+        yield ("corr", "script_eq", [[canon_cmds(a), []], sa])
+        if cmds_serializable(a):
+            raw = ref_cmds(a)
+            hx = raw.hex().encode()
+            yield ("corr", "script_parse_hex", [r.choice([hx, hx.upper(), hx[:-1], hx + b" ", b"4c01" + hx, hx + b"4d0100"])])
+            ctx.label("script-canon/canonical" if cmds_wf(a) else "script-canon/int-1..78")
+            yield ("prop", "script_canon", [raw])
+            if raw:
+                m = bytearray(raw)
+                m[r.randrange(len(m))] = r.choice([0, 1, 75, 76, 77, 78, 79, r.getrandbits(8)])
+                ctx.label("script-canon/mutated")
+                yield ("prop", "script_canon", [bytes(m)])
+                yield ("prop", "script_canon", [raw[: r.randrange(0, len(raw))]])
+        yield ("prop", "script_canon", [ctx.rbytes(r.randrange(0, 40))])
+    for op, w in ((76, 1), (77, 2), (78, 4)):          # every push form at the class boundaries
+        for dl in (0, 1, 74, 75, 76, 77, 254, 255, 256, 257, 519, 520, 521, 600):
+            if dl < 256 ** w:
+                ctx.label("script-canon/pushdata-form")
+                yield ("prop", "script_canon", [bytes([op]) + dl.to_bytes(w, "little") + ctx.rbytes(dl)])
+                yield ("prop", "script_canon", [b"\x51" + bytes([op]) + dl.to_bytes(w, "little") + ctx.rbytes(dl) + b"\xac"])
+    for dl in range(0, 77):
+        yield ("prop", "script_canon", [bytes([dl]) + ctx.rbytes(dl)])
+    # the fetcher with its network argument: histories over served and unserved network names
+    nets = [b"mainnet", b"testnet", b"signet", b"regtest", b"", b"Mainnet"]
+    for k in range(ctx.n(80, 1000)):
+        v = good[k % len(good)]
+        w = good[(k * 13 + 1) % len(good)]
+        ops = []
+        for _ in range(r.randrange(2, 8)):
+            a, b = r.choice([v, w]), r.choice([v, w])
+            hx = hexresp(ref_full(b))
+            resp = hx + r.choice([b"", b"\n", b"\r\n"]) if r.random() < 0.8 else r.choice([b"zz", b"", hx[:-2]])
+            ops.append([r.randrange(2), resp, ref_txid(a).encode(), r.choice(nets if r.random() < 0.5 else nets[:3])])
+        ctx.label("fetch/network-history")
+        yield ("corr", "fetch_net_run", [ops])
+        yield ("prop", "fetch_cross_network", [hexresp(ref_full(v)), ref_txid(v).encode(), r.choice(nets[:3]), r.choice(nets)])
+        yield ("prop", "fetch_cross_network", [hexresp(ref_full(w)), ref_txid(v).encode(), r.choice(nets[:3]), r.choice(nets)])
+    # Script.parse(stream, raw) argument check; constructor defaults of TxIn / Tx
+    for k in range(ctx.n(120, 1500)):
+        a = r_cmds(ctx, r)
+        enc = ref_script([a]) + ctx.rbytes(r.randrange(0, 3)) if cmds_serializable(a) else ctx.rbytes(r.randrange(0, 12))
+        raw = ref_cmds(a) if cmds_serializable(a) and k % 3 else ctx.rbytes(r.randrange(0, 9))
+        ctx.label("api-model/script-parse-args")
+        yield ("corr", "script_parse_args", [[enc], []])
+        yield ("corr", "script_parse_args", [[], [raw]])
+        yield ("corr", "script_parse_args", [[enc], [raw]])
+        yield ("corr", "script_parse_args", [[enc[: r.randrange(0, len(enc) + 1)]], r.choice([[], [b""]])])
+        pts = [[ctx.rbytes(32 if r.random() < 0.9 else r.choice([0, 31, 33])), r_u32(r) if r.random() < 0.9 else r.choice([-1, U32])]
+               for _ in range(r.randrange(0, 4))]
+        ctx.label("api-model/constructor-defaults")
+        yield ("corr", "tx_defaults", [r.choice([1, 2, 0, U32 - 1, U32, -1]), pts, [r_txout(ctx, r) for _ in range(r.randrange(0, 3))]])
+    yield ("corr", "script_parse_args", [[], []])
+    yield ("corr", "script_parse_args", [[b""], []])
+    yield ("corr", "script_parse_args", [[b""], [b""]])
+    yield ("corr", "script_parse_args", [[], [b""]])
+    # the consumers of the cache: TxIn.value / TxIn.script_pubkey of an input spending a fetched transaction
+    for k in range(ctx.n(150, 2000)):
+        v = good[k % len(good)]
+        w = good[(k * 17 + 3) % len(good)]
+        nout = len(v[2])
+        idx = r.choice([0, 0, 1, max(nout - 1, 0), nout, nout + 1, 0xffffffff, r.randrange(0, 4)])
+        prev = bytes.fromhex(ref_txid(v))
+        if k % 10 == 0:
+            prev = r.choice([prev[::-1], prev[:31], b"", ctx.rbytes(32)])
+        i = [prev, idx, [[], []], r.choice([0xffffffff, 0, -1 if k % 50 == 0 else 5]), []]
+        resp = hexresp(ref_full(v)) + r.choice([b"", b"\n"]) if k % 7 else r.choice([hexresp(ref_full(w)), b"zz", b""])
+        ctx.label("fetch/prevout-value-script")
+        yield ("corr", "txin_prevout", [i, r.choice(nets[:3]) if k % 9 else r.choice(nets), resp])
